@@ -344,6 +344,8 @@ def run_scenario(sc, conf, workdir):
                 for step in range(prog["reports"] if scores is None else len(scores)):
                     r = vals[0] + REPORT_OFFSETS[step] if scores is None else scores[step]
                     r = -r if flip[0] else r
+                    if prog.get("nan_mod") and (trial.number * 7 + step * 3) % prog["nan_mod"] == 0:
+                        r = math.nan             # a diverged step: NaN in the maximising and in the mirrored run alike
                     trial.report(r, step)
                     ev.append({"op": "report", "step": step, "val": r})
                     ans = guarded("prune", {"step": step, "ans": -1}, trial.should_prune)
@@ -472,7 +474,7 @@ class Tokens:
     def tok(self, x):
         x = float(x)
         if math.isnan(x):
-            key, sgn = b"nan", 1
+            return 0            # NaN is its own mirror image: the sign-normalised key must not depend on the direction
         else:
             key, sgn = struct.pack(">d", abs(x)), (1 if math.copysign(1.0, x) > 0 else -1)
         i = self.table.get(key)
